@@ -468,3 +468,124 @@ func (ck *Check) builtFilterOf(cons *ssa.Function) (*builtFilter, string) {
 	}
 	return bf, ""
 }
+
+// ---- index searches ---------------------------------------------------------------------------
+
+// idxSum: h returns the index of the first element e of List (a term over h's parameters) with
+// e.Field == Lit, and a negative constant when there is none. So r ≥ 0 ⇒ r < len(List) ∧
+// List[r].Field == Lit, and r < 0 ⇔ no element matches.
+type idxSum struct {
+	Fn    *ssa.Function
+	List  *Term
+	Field string
+	Lit   *Term
+}
+
+var idxSumCache = map[*ssa.Function]*idxSum{}
+
+// indexSearchSummary recognises a hand-written index search: one slice range / counted loop, left
+// early only to return the loop index under exactly `elem.Field == Lit`; every other return a
+// negative constant, outside the loop.
+func indexSearchSummary(p *Prog, h *ssa.Function) *idxSum {
+	if h == nil || h.Blocks == nil || !p.inRepo(h) {
+		return nil
+	}
+	if s, ok := idxSumCache[h]; ok {
+		return s
+	}
+	idxSumCache[h] = nil
+	res := h.Signature.Results()
+	if res.Len() != 1 || !isInteger(res.At(0).Type()) || !p.readOnly(h) {
+		return nil
+	}
+	var loop *Loop
+	for _, l := range loopsOf(h) {
+		if l.IdxPhi == nil || loop != nil {
+			return nil
+		}
+		loop = l
+	}
+	if loop == nil {
+		return nil
+	}
+	ctx := p.NewCtx(h)
+	ctx.maxD = 0
+	sum := &idxSum{Fn: h, List: ctx.Term(loop.Over)}
+	hits := 0
+	for _, b := range h.Blocks {
+		r, ok := b.Instrs[len(b.Instrs)-1].(*ssa.Return)
+		if !ok {
+			continue
+		}
+		v := r.Results[0]
+		if k, isC := v.(*ssa.Const); isC {
+			if k.Value == nil || k.Int64() >= 0 || innermostLoop(h, b) != nil {
+				return nil
+			}
+			continue
+		}
+		if !(v == loop.Idx || rangeLoopOf(v) == loop.IdxPhi) {
+			return nil
+		}
+		hits++
+		pc := ctx.BlockPC(b)
+		var m *Term
+		for _, at := range pc.Atoms() {
+			switch {
+			case at.Kind == "cmp" && at.Name == "<" && (strings.Contains(at.String(), "rangeindex") || at.Args[1].Kind == "len"):
+			case at.Kind == "cmp" && at.Name == "==" && m == nil:
+				m = at
+			default:
+				return nil
+			}
+		}
+		if m == nil {
+			return nil
+		}
+		if imp, _, _ := Entails(pc, Atom(m)); !imp {
+			return nil
+		}
+		var lit *Term
+		fname, hit := "", false
+		for i, x := range m.Args {
+			if x.Kind == "field" && isElemOf(x.Args[0], func(t *Term) bool { return t.Key() == sum.List.Key() }) {
+				fname, lit, hit = x.Name, m.Args[1-i], true
+			}
+		}
+		if !hit || !(lit.Kind == "const" || lit.Kind == "param") {
+			return nil
+		}
+		if sum.Lit != nil && (sum.Lit.Key() != lit.Key() || sum.Field != fname) {
+			return nil
+		}
+		sum.Field, sum.Lit = fname, lit
+	}
+	if hits == 0 {
+		return nil
+	}
+	for _, e := range loop.Exits {
+		if e[0] == loop.Header {
+			continue
+		}
+		r, ok := e[1].Instrs[len(e[1].Instrs)-1].(*ssa.Return)
+		if !ok {
+			return nil
+		}
+		if _, isC := r.Results[0].(*ssa.Const); isC {
+			return nil
+		}
+	}
+	idxSumCache[h] = sum
+	return sum
+}
+
+// bound: the summary's list and literal with h's parameters replaced by the call's arguments.
+func (s *idxSum) bound(args []*Term) (*Term, *Term) {
+	bind := map[ssa.Value]*Term{}
+	for i, p := range s.Fn.Params {
+		if i < len(args) {
+			bind[p] = args[i]
+		}
+	}
+	return s.List.subst(bind), s.Lit.subst(bind)
+}
